@@ -404,8 +404,7 @@ theorem C09_disk_sources :
     Gen.C09.diskSources = [("read_procfs", "{get_procfs_path()}/diskstats"), ("read_sysfs", "/sys/block")] ∧
     Gen.C09.diskNoSource = "NotImplementedError" ∧
     Gen.C09.sysfsShape = ["/sys/block", "os.walk(os.path.join('/sys/block', block))", "'stat' not in files",
-      "open_text(os.path.join(root, 'stat'))", "fields = f.read().strip().split()",
-      "name = os.path.basename(root)"] ∧
+      "open_text(os.path.join(root, 'stat'))", "fields = f.read().strip().split()"] ∧
     sysfsCfg.statName = statName ∧ sysfsCfg.take = 10 := by decide
 
 /-- `/proc/diskstats` is preferred whenever it exists (then `/sys/block` only answers
@@ -450,79 +449,140 @@ theorem C09_sysfs_short_stat_ValueError (vs : List Nat) (h : vs.length < 10) (hn
     sysfsStat sysfsCfg diskCfg.univNl (renderStatLine vs) = .err .valueError :=
   sysfsStat_short _ vs h hne
 
-/-- **sysfs, all in one**: for every kernel-shaped `/sys/block` (disks with 11/15/17-or-more-field
-    `stat` files, partitions below them, other attribute files and directories around), with
-    `/proc/diskstats` absent, `psutil.disk_io_counters(perdisk)` is what the property promises:
-    every device (under its sysfs name) with its documented fields; system-wide the field-wise
-    sum over the whole disks only; `{}` / `None` when nothing is listed -/
-theorem C09_sysfs (disks : List SysDisk) (wf : SysWF disks) (perdisk : Bool) :
-    diskIoCountersW ⟨none, some (renderSysfs disks)⟩ perdisk = (expectSysfs perdisk disks).toOut := by
-  unfold diskIoCountersW
-  rw [sysfsPlatform_render disks wf perdisk, frontEnd_disk]
-  unfold expectSysfs
-  cases expectDisk perdisk (sysfsNamed (sysDevs disks)) <;> rfl
+/-- the two treatments of the directory name the translator recognises -/
+def sysfsFixedCfg : SysfsCfg := sysfsCfgWith (some (33, 47))     -- `os.path.basename(root).replace('!', '/')`
+def sysfsBareCfg : SysfsCfg := sysfsCfgWith none                 -- `os.path.basename(root)`
 
-/-- per device: every disk and partition directory with exactly its documented fields -/
+/-- obligation on the generated configuration (holds before and after fixes/C09-sysfs-slash-name):
+    the name is either the bare directory name or that name with `!` mapped back to `/` -/
+theorem C09_sysfs_name_cfg :
+    sysfsCfg.nameReplace = none ∨ sysfsCfg.nameReplace = some (33, 47) := by decide
+
+theorem sysfsCfg_eq : sysfsCfg = sysfsCfgWith sysfsCfg.nameReplace := rfl
+
+theorem sysfs_with (nr : Option (Nat × Nat)) (hn : NameOk nr) (disks : List SysDisk) (wf : SysWF disks)
+    (perdisk : Bool) :
+    diskIoCountersWith (sysfsCfgWith nr) ⟨none, some (renderSysfs disks)⟩ perdisk
+      = (expectDisk perdisk (namedBy nr (sysDevs disks))).toOut := by
+  unfold diskIoCountersWith
+  rw [sysfsPlatform_render nr hn disks wf perdisk, frontEnd_disk]
+  cases expectDisk perdisk (namedBy nr (sysDevs disks)) <;> rfl
+
+/-- **sysfs, as generated**: for every kernel-shaped `/sys/block` (disks with 11/15/17-or-more-field
+    `stat` files, partitions below them, other attribute files and directories around), with
+    `/proc/diskstats` absent, `psutil.disk_io_counters(perdisk)` gives every device — under the name
+    `read_sysfs` computes for it — with its documented fields; system-wide the field-wise sum over
+    the whole disks only; `{}` / `None` when nothing is listed. Builds for either treatment of the name. -/
+theorem C09_sysfs_as_generated (disks : List SysDisk) (wf : SysWF disks) (perdisk : Bool) :
+    diskIoCountersW ⟨none, some (renderSysfs disks)⟩ perdisk
+      = (expectDisk perdisk (namedBy sysfsCfg.nameReplace (sysDevs disks))).toOut :=
+  sysfs_with sysfsCfg.nameReplace (nameOk_of _ C09_sysfs_name_cfg) disks wf perdisk
+
+/-- **sysfs, all in one, at full strength** — with `.replace('!', '/')` in `read_sysfs`: exactly what
+    the property promises, every device under the kernel's own name (no `!` in a kernel name) -/
+theorem C09_sysfs_fixed (disks : List SysDisk) (wf : SysWF disks)
+    (hbang : ∀ d ∈ sysDevs disks, 33 ∉ d.name) (perdisk : Bool) :
+    diskIoCountersWith sysfsFixedCfg ⟨none, some (renderSysfs disks)⟩ perdisk
+      = (expectSysfs perdisk disks).toOut := by
+  unfold sysfsFixedCfg expectSysfs
+  rw [sysfs_with _ nameOk_unbang disks wf perdisk, namedBy_unbang _ hbang]
+
+/-- … with the bare `basename(root)`: every device under its *directory* name (`cciss!c0d0`) -/
+theorem C09_sysfs_unrepaired (disks : List SysDisk) (wf : SysWF disks) (perdisk : Bool) :
+    diskIoCountersWith sysfsBareCfg ⟨none, some (renderSysfs disks)⟩ perdisk
+      = (expectDisk perdisk (sysfsNamed (sysDevs disks))).toOut :=
+  sysfs_with none nameOk_none disks wf perdisk
+
+/-- … hence for the code as extracted, as soon as the translator sees the `.replace('!', '/')` -/
+theorem C09_sysfs (h : sysfsCfg.nameReplace = some (33, 47)) (disks : List SysDisk) (wf : SysWF disks)
+    (hbang : ∀ d ∈ sysDevs disks, 33 ∉ d.name) (perdisk : Bool) :
+    diskIoCountersW ⟨none, some (renderSysfs disks)⟩ perdisk = (expectSysfs perdisk disks).toOut := by
+  rw [C09_sysfs_as_generated disks wf perdisk, h, namedBy_unbang _ hbang]
+  rfl
+
+/-- per device (as generated): every disk and partition directory with exactly its documented fields -/
 theorem C09_sysfs_roundtrip (disks : List SysDisk) (wf : SysWF disks) (hne : disks ≠ []) :
     diskIoCountersW ⟨none, some (renderSysfs disks)⟩ true
-      = .perdev ((sysfsNamed (sysDevs disks)).map fun d => (d.name, documented9 d.stat)) := by
-  rw [C09_sysfs disks wf true]
+      = .perdev ((namedBy sysfsCfg.nameReplace (sysDevs disks)).map fun d => (d.name, documented9 d.stat)) := by
+  rw [C09_sysfs_as_generated disks wf true]
   cases disks with
   | nil => exact absurd rfl hne
   | cons d r => rfl
 
-/-- system-wide through sysfs: the sum over the directories listed in `/sys/block` only —
-    partition directories are not counted twice -/
+/-- system-wide through sysfs (as generated; the names play no role): the sum over the directories
+    listed in `/sys/block` only — partition directories are not counted twice -/
 theorem C09_sysfs_total_is_sum_of_whole_disks (disks : List SysDisk) (wf : SysWF disks) (hne : disks ≠ []) :
     diskIoCountersW ⟨none, some (renderSysfs disks)⟩ false
       = .total (diskFieldNames.map fun f =>
-          (f, ((wholeDisks (sysfsNamed (sysDevs disks))).map fun d => ((documented9 d.stat).lookup f).getD 0).sum)) := by
-  rw [C09_sysfs disks wf false]
-  cases hw : wholeDisks (sysfsNamed (sysDevs disks)) with
+          (f, ((wholeDisks (sysDevs disks)).map fun d => ((documented9 d.stat).lookup f).getD 0).sum)) := by
+  rw [C09_sysfs_as_generated disks wf false]
+  have hmap : (wholeDisks (namedBy sysfsCfg.nameReplace (sysDevs disks))).map (·.stat)
+      = (wholeDisks (sysDevs disks)).map (·.stat) := by
+    generalize sysDevs disks = devs
+    induction devs with
+    | nil => rfl
+    | cons d r ih =>
+      simp only [wholeDisks, namedBy, List.map_cons, List.filter_cons] at ih ⊢
+      split <;> simp [ih]
+  have hsum : ∀ (l : List Dev) (f : String),
+      (l.map fun d => ((documented9 d.stat).lookup f).getD 0) = (l.map (·.stat)).map fun r => ((documented9 r).lookup f).getD 0 := by
+    intro l f; simp [List.map_map, Function.comp_def]
+  cases hw : wholeDisks (namedBy sysfsCfg.nameReplace (sysDevs disks)) with
   | nil =>
     cases disks with
     | nil => exact absurd rfl hne
-    | cons d r => simp [wholeDisks, sysfsNamed, sysDevs, SysDisk.devs] at hw
+    | cons d r => simp [wholeDisks, namedBy, sysDevs, SysDisk.devs] at hw
   | cons d r =>
-    simp [expectSysfs, expectDisk, hw, Expect.toOut, sumFields, List.map_map, Function.comp_def]
+    simp only [expectDisk, hw, Bool.false_eq_true, if_false, List.isEmpty_cons, Expect.toOut, sumFields]
+    congr 1
+    apply List.map_congr_left
+    intro f _
+    rw [List.map_map, ← hw]
+    have := hsum (wholeDisks (namedBy sysfsCfg.nameReplace (sysDevs disks))) f
+    simp only [Function.comp_def] at this ⊢
+    rw [this, hmap, ← hsum]
 
-theorem sysName_id (n : Bytes) (h : 47 ∉ n) : sysName n = n := by
-  unfold sysName
-  induction n with
-  | nil => rfl
-  | cons c r ih =>
-    have hc : c ≠ 47 := fun e => h (by simp [e])
-    simp only [List.map_cons, hc, if_false]
-    rw [ih (fun m => h (by simp [m]))]
+/-- full strength: both sources give the same answer for the same kernel state (kernel names are
+    single tokens without `!`) -/
+def C09_sysfs_agrees_with_procfs_Full (sc : SysfsCfg) : Prop :=
+  ∀ (disks : List SysDisk), SysWF disks → DiskWF (sysDevs disks) → (∀ d ∈ sysDevs disks, 33 ∉ d.name) →
+    ∀ perdisk : Bool,
+      diskIoCountersWith sc ⟨none, some (renderSysfs disks)⟩ perdisk
+        = diskIoCountersWith sc ⟨some (renderDiskstats (sysDevs disks)), some (renderSysfs disks)⟩ perdisk
 
-theorem sysfsNamed_id (devs : List Dev) (h : ∀ d ∈ devs, 47 ∉ d.name) : sysfsNamed devs = devs := by
-  induction devs with
-  | nil => rfl
-  | cons d r ih =>
-    rw [sysfsNamed_cons, sysName_id d.name (h d (by simp)), ih (fun x hx => h x (by simp [hx]))]
+theorem procfs_world (sc : SysfsCfg) (disks : List SysDisk) (wfp : DiskWF (sysDevs disks)) (perdisk : Bool) :
+    diskIoCountersWith sc ⟨some (renderDiskstats (sysDevs disks)), some (renderSysfs disks)⟩ perdisk
+      = (expectDisk perdisk (sysDevs disks)).toOut := by
+  have h : diskIoCountersWith sc ⟨some (renderDiskstats (sysDevs disks)), some (renderSysfs disks)⟩ perdisk
+      = diskIoCounters ((renderSysfs disks).map (·.name)) perdisk (renderDiskstats (sysDevs disks)) := rfl
+  have hb : sysBlock (sysfsNamed (sysDevs disks)) = sysBlock (sysDevs disks) := by
+    simp [sysBlock, sysfsNamed, List.filter_map, List.map_map, Function.comp_def, sysName_idem]
+  rw [h, sysBlock_render, hb, C09_disk _ wfp perdisk]
 
-/-- full strength: both sources give the same answer for the same kernel state -/
-def C09_sysfs_agrees_with_procfs_Full : Prop :=
-  ∀ (disks : List SysDisk), SysWF disks → DiskWF (sysDevs disks) → ∀ perdisk : Bool,
-    diskIoCountersW ⟨none, some (renderSysfs disks)⟩ perdisk
-      = diskIoCountersW ⟨some (renderDiskstats (sysDevs disks)), some (renderSysfs disks)⟩ perdisk
+/-- **both sources agree** — at full strength — with `.replace('!', '/')` in `read_sysfs` -/
+theorem C09_sysfs_agrees_with_procfs_fixed : C09_sysfs_agrees_with_procfs_Full sysfsFixedCfg := by
+  intro disks wf wfp hbang perdisk
+  rw [C09_sysfs_fixed disks wf hbang perdisk, procfs_world _ disks wfp perdisk]
+  rfl
 
-/-- **both sources agree** for the same kernel state (per device and system-wide), where the
-    kernel's formats allow: no device name contains `/` (sysfs presents such a name with `!`),
-    and the names are single tokens for `/proc/diskstats` (`DiskWF`) -/
-theorem C09_sysfs_agrees_with_procfs (disks : List SysDisk) (wf : SysWF disks)
+/-- … hence for the code as extracted, as soon as the translator sees the `.replace('!', '/')` -/
+theorem C09_sysfs_agrees_with_procfs (h : sysfsCfg.nameReplace = some (33, 47)) :
+    C09_sysfs_agrees_with_procfs_Full sysfsCfg := by
+  have : sysfsCfg = sysfsFixedCfg := by rw [sysfsCfg_eq, h]; rfl
+  rw [this]
+  exact C09_sysfs_agrees_with_procfs_fixed
+
+/-- with the bare `basename(root)` the sources agree only when no device name contains `/` -/
+theorem C09_sysfs_agrees_with_procfs_slashfree (disks : List SysDisk) (wf : SysWF disks)
     (wfp : DiskWF (sysDevs disks)) (hslash : ∀ d ∈ sysDevs disks, 47 ∉ d.name) (perdisk : Bool) :
-    diskIoCountersW ⟨none, some (renderSysfs disks)⟩ perdisk
-      = diskIoCountersW ⟨some (renderDiskstats (sysDevs disks)), some (renderSysfs disks)⟩ perdisk := by
-  rw [C09_sysfs disks wf perdisk, (C09_source_dispatch _ _ perdisk).1, sysBlock_render,
-    sysfsNamed_id _ hslash, C09_disk _ wfp perdisk]
-  unfold expectSysfs
-  rw [sysfsNamed_id _ hslash]
+    diskIoCountersWith sysfsBareCfg ⟨none, some (renderSysfs disks)⟩ perdisk
+      = diskIoCountersWith sysfsBareCfg ⟨some (renderDiskstats (sysDevs disks)), some (renderSysfs disks)⟩ perdisk := by
+  rw [C09_sysfs_unrepaired disks wf perdisk, procfs_world _ disks wfp perdisk, sysfsNamed_id _ hslash]
 
-/-- … and the hypothesis is needed: a disk the kernel calls `c/d` is reported as `c!d` when the
-    counters come from `/sys/block` (the kernel itself names the directory so) and as `c/d` when
-    they come from `/proc/diskstats` -/
-theorem C09_sysfs_slash_name_counterexample : ¬ C09_sysfs_agrees_with_procfs_Full := by
+/-- … and it is false in general (finding C09-sysfs-slash-name): a disk the kernel calls `c/d` is
+    reported as `c!d` when the counters come from `/sys/block` and as `c/d` when they come from
+    `/proc/diskstats` -/
+theorem C09_sysfs_slash_name_counterexample : ¬ C09_sysfs_agrees_with_procfs_Full sysfsBareCfg := by
   intro hfull
   let s : Io11 := ⟨1, 2, 3, 4, 5, 6, 7, 8, 9, 10, 11⟩
   let disks : List SysDisk := [⟨8, 0, [99, 47, 100], s, [], [], [], []⟩]
@@ -544,17 +604,25 @@ theorem C09_sysfs_slash_name_counterexample : ¬ C09_sysfs_agrees_with_procfs_Fu
         List.append_nil, List.mem_singleton] at hd
       subst hd
       simp [WFRec]
-  have h := hfull disks wf wfp true
-  rw [C09_sysfs disks wf true, (C09_source_dispatch _ _ true).1, sysBlock_render] at h
-  have hb : sysBlock (sysfsNamed (sysDevs disks)) = sysBlock (sysDevs disks) := by decide
-  rw [hb, C09_disk _ wfp true] at h
-  simp only [expectSysfs, expectDisk, disks, sysDevs, SysDisk.devs, sysfsNamed, List.flatMap_cons,
+  have h := hfull disks wf wfp (by decide) true
+  rw [C09_sysfs_unrepaired disks wf true, procfs_world _ disks wfp true] at h
+  simp only [expectDisk, disks, sysDevs, SysDisk.devs, sysfsNamed, List.flatMap_cons,
     List.flatMap_nil, List.map_nil, List.append_nil, List.map_cons, if_true, List.isEmpty_cons,
     Bool.false_eq_true, if_false, Expect.toOut] at h
   injection h with h1
   injection h1 with h2 _
   injection h2 with h3 _
   exact absurd h3 (by decide)
+
+/- TO UNCOMMENT once fixes/C09-sysfs-slash-name.diff has landed in /repo (the translator fact
+   `sysfsNameReplace` is then `some (33, 47)`); until then these two do not build:
+
+theorem cfg_sysfs_unbang : sysfsCfg.nameReplace = some (33, 47) := by decide
+
+/-- both sources agree for the code as it is -/
+theorem C09_sysfs_agrees_with_procfs_full : C09_sysfs_agrees_with_procfs_Full sysfsCfg :=
+  C09_sysfs_agrees_with_procfs cfg_sysfs_unbang
+-/
 
 /-! ## disk_usage -/
 
